@@ -4,10 +4,12 @@
 # Writes <dir>/confirm.txt. Serialised with flock (fixed scratch path keeps incremental builds warm).
 set -u
 d="$(readlink -f "$1")"
-exec 9>/tmp/confirm.lock; flock 9
-wt=/tmp/confirm/wt
-export CARGO_TARGET_DIR=/tmp/confirm/target CARGO_NET_OFFLINE=true
-mkdir -p /tmp/confirm
+slot="${CONFIRM_SLOT:-}"   # parallel runs use different slots (separate scratch worktree + target dir)
+base="/tmp/confirm$slot"
+exec 9>"$base.lock"; flock 9
+wt="$base/wt"
+export CARGO_TARGET_DIR="$base/target" CARGO_NET_OFFLINE=true
+mkdir -p "$base"
 if [ ! -d "$wt" ]; then git -C /repo worktree add --detach "$wt" HEAD -q || exit 2; fi
 git -C "$wt" checkout -q --detach "$(git -C /repo rev-parse HEAD)"; git -C "$wt" checkout -q -- .; git -C "$wt" clean -fdq
 res="$d/confirm.txt"; : > "$res"; echo "repo_head: $(git -C /repo rev-parse --short HEAD)" >> "$res"
